@@ -137,8 +137,8 @@ def case_coq(c, res):
 def correspondence(ctx, rng):
     cases = gen_cases(ctx, rng)
     results = [run_impl(c) for c in cases]
-    # round(nan) raises for the centre of mass of a zero-total image: same class as the nan result
-    results = [('NonFinite',) if (r[0] == 'Raises' and c.get('round') and c['meth'] == 'com' and r[1] == 'ValueError')
+    # round(nan) / round(inf) raise for the centre of mass of a zero-total image: same class as the nan result
+    results = [('NonFinite',) if (r[0] == 'Raises' and c.get('round') and c['meth'] == 'com' and r[1] in ('ValueError', 'OverflowError'))
                else r for c, r in zip(cases, results)]
     raised = [i for i, r in enumerate(results) if r[0] == 'Raises']
     shard = 400
